@@ -5,6 +5,7 @@ From V Require Import Common.Base C08.SortPerm C08.Comparators C08.CmpTheory C08
   C08.Diagnostics C08.Scanner C08.ScannerProofs C08.Consumers gen.SortKeysGen C08.CollectSort
   C08.ScannerReach C08.SiteModels C08.ComposeHash C08.ComposeMetafile.
 From V Require C18.Hash C18.Ingredients C19.Doc C19.DocProofs.
+From V Require Import gen.HashInventoryGen gen.HashPathsGen C08.HashPaths.
 From Coq Require Import Permutation Sorted.
 
 (* ================= order-insensitivity of sorting and folding ================= *)
@@ -470,3 +471,15 @@ Theorem metafile_schedule_independent :
       (C19.DocProofs.link_results pathOf extra (map Cout (sort keys2))).
 Proof. exact metafile_two_schedules. Qed.
 Print Assumptions metafile_schedule_independent.
+
+(* ---- the paths that reach a chunk hash do not depend on the location of the
+   project or on the log path style: over the regenerated inventories of
+   generateIsolatedHash (writes: c18hashinv; definitions of the written local
+   variables: t4mapsites), nothing mentions LogPathStyle / Select( / .Abs /
+   AbsPath / Cwd / AbsWorkingDir, and the file path is PrettyPaths.Rel ---- *)
+Theorem hash_path_ingredients_are_relative :
+  (forall k e g, In (k, e, g) iso_writes -> location_free e = true) /\
+  (forall v e, In (v, e) hash_operand_definitions -> location_free e = true) /\
+  In ("filePath", "file.InputFile.Source.PrettyPaths.Rel")%string hash_operand_definitions.
+Proof. exact (conj hash_writes_location_free (conj hash_operands_location_free hash_file_path_is_relative)). Qed.
+Print Assumptions hash_path_ingredients_are_relative.
